@@ -73,10 +73,27 @@ mod n {
             std::fs::write(cut.join("cubo.ctehexml"), &text[..half]).unwrap();
             std::fs::write(broken.join("cubo.ctehexml"), text.replacen("CONSTRUCTION  = \"", "CONSTRUCTION  = \"no_such_", 1)).unwrap();
         }
+        // a project the library converts, whose result file is damaged: fine by default, an error with --use-extra
+        let kygbad = tmp_dir("c01-kygbad");
+        if let Some(cubo) = dirs.iter().find(|d| d.file_name().map(|n| n == "cubo").unwrap_or(false)) {
+            for e in std::fs::read_dir(cubo).unwrap().filter_map(|e| e.ok()) {
+                let p = e.path();
+                if p.is_file() {
+                    let _ = std::fs::copy(&p, kygbad.join(p.file_name().unwrap()));
+                }
+            }
+            let kyg = kygbad.join("KyGananciasSolares.txt");
+            let bytes = std::fs::read(&kyg).unwrap_or_default();
+            let text: String = bytes.iter().map(|b| *b as char).collect();
+            let damaged = text.replacen("Muro;P01_E01_PE001;28.00;", "Muro;P01_E01_PE001;veintiocho;", 1);
+            std::fs::write(&kyg, damaged.chars().map(|ch| ch as u32 as u8).collect::<Vec<u8>>()).unwrap();
+        }
+        let mut dirs = dirs;
+        dirs.push(kygbad.clone());
         let have_bins = bin("hulc2model").exists() && bin("thor").exists();
-        drive("C01.export", "the real hulc2model binary on the 12 shipped project directories x {default, --use-extra}, on an empty directory, a directory without project, a missing one and two directories whose project the library rejects (cut in half, broken reference); the same directory given with a trailing slash and as a relative path; thor -o on the 12 project files, into a new file and over an existing longer one; compared with collect_hulc_data / Model::try_from in this process", |c| {
+        drive("C01.export", "the real hulc2model binary on the 12 shipped project directories x {default, --use-extra}, on an empty directory, a directory without project, a missing one and two directories whose project the library rejects (cut in half, broken reference) and a copy of `cubo` with a damaged KyGananciasSolares.txt (converts by default, fails with --use-extra); the same directory given with a trailing slash and as a relative path; thor -o on the 12 project files, into a new file and over an existing longer one; compared with collect_hulc_data / Model::try_from in this process", |c| {
             c.check("C01.tools_built", have_bins, || format!("hulc2model / thor not found in {:?}", std::env::var("VERIF_BIN_DIR")));
-            c.check("C01.corpus", dirs.len() >= 12, || format!("{} project directories", dirs.len()));
+            c.check("C01.corpus", dirs.len() >= 13, || format!("{} project directories", dirs.len()));
             if !have_bins {
                 return;
             }
@@ -117,7 +134,10 @@ mod n {
                 match lib {
                     Err(e) => {
                         // not convertible by the library (with these options): outside the property, but never JSON on a failure
-                        c.check("C01.failure_no_json", out.status.success() || !stdout.contains('{'), || format!("{}: failed run left JSON-like text on stdout", name));
+                        // the library rejects it (with these options): the tool must fail too, and print no JSON
+                        c.check("C01.failure_exit_nonzero", !out.status.success(), || format!("{} extra={}: the library fails ({}) but the tool exits {:?}", name, extra, e.chars().take(80).collect::<String>(), out.status.code()));
+                        c.check("C01.failure_no_json", !stdout.contains('{'), || format!("{} extra={}: failed run left JSON-like text on stdout", name, extra));
+                        c.nontrivial(format!("{} {} rejected", name, extra));
                         c.sample(|| format!("{} extra={}: library cannot convert ({}), tool exit {:?}", name, extra, e.chars().take(60).collect::<String>(), out.status.code()));
                     }
                     Ok(model) => {
@@ -175,6 +195,7 @@ mod n {
         });
         let _ = std::fs::remove_dir_all(&empty);
         let _ = std::fs::remove_dir_all(&other);
+        let _ = std::fs::remove_dir_all(&kygbad);
         let _ = std::fs::remove_dir_all(&cut);
         let _ = std::fs::remove_dir_all(&broken);
     }
